@@ -17,61 +17,182 @@ def deadlineAfter : Int → List (Int × Str) → Option Int
       | .extend ms => deadlineAfter (t + ms) rest
       | .ignored => deadlineAfter dl rest
 
+/-! ### general forms (arbitrary current deadline and accumulated extensions) -/
+
+theorem deadlineAfter_late (dl t : Int) (d : Str) (rest : List (Int × Str)) (h : t ≥ dl) :
+    deadlineAfter dl ((t, d) :: rest) = none := by
+  simp [deadlineAfter, h]
+
+theorem deadlineAfter_response (dl t : Int) (d : Str) (rest : List (Int × Str))
+    (hr : isResponse d = true) : deadlineAfter dl ((t, d) :: rest) = none := by
+  by_cases h : t ≥ dl
+  · exact deadlineAfter_late _ _ _ _ h
+  · simp [deadlineAfter, h, classify_of_isResponse hr]
+
+theorem deadlineAfter_extend (dl t ms : Int) (d : Str) (rest : List (Int × Str)) (ht : t < dl)
+    (hc : classify d = .extend ms) : deadlineAfter dl ((t, d) :: rest) = deadlineAfter (t + ms) rest := by
+  have : ¬ t ≥ dl := by omega
+  simp [deadlineAfter, this, hc]
+
+theorem deadlineAfter_ignored (dl t : Int) (d : Str) (rest : List (Int × Str)) (ht : t < dl)
+    (hc : classify d = .ignored) : deadlineAfter dl ((t, d) :: rest) = deadlineAfter dl rest := by
+  have : ¬ t ≥ dl := by omega
+  simp [deadlineAfter, this, hc]
+
+theorem first_real_response_gen (dl0 : Int) (exts : List Int) (pre : List (Int × Str)) (t : Int) (d : Str)
+    (later : List (Int × Str)) (dl : Int) (hpre : deadlineAfter dl0 pre = some dl) (ht : t < dl)
+    (hd : isResponse d = true) : (loop dl0 exts (pre ++ (t, d) :: later)).1 = .response d := by
+  induction pre generalizing dl0 exts with
+  | nil =>
+    simp only [deadlineAfter, Option.some.injEq] at hpre
+    subst hpre
+    simp [loop_response _ _ _ _ _ ht hd]
+  | cons m rest ih =>
+    obtain ⟨t', d'⟩ := m
+    by_cases hl : t' ≥ dl0
+    · rw [deadlineAfter_late _ _ _ _ hl] at hpre; cases hpre
+    · have hl' : t' < dl0 := by omega
+      cases hc : classify d' with
+      | response x =>
+        obtain ⟨_, hr⟩ := classify_response hc
+        rw [deadlineAfter_response _ _ _ _ hr] at hpre; cases hpre
+      | extend ms =>
+        rw [deadlineAfter_extend _ _ _ _ _ hl' hc] at hpre
+        rw [List.cons_append, loop_extend _ _ _ _ _ _ hl' hc]
+        exact ih _ _ hpre
+      | ignored =>
+        rw [deadlineAfter_ignored _ _ _ _ hl' hc] at hpre
+        rw [List.cons_append, loop_ignored _ _ _ _ _ hl' hc]
+        exact ih _ _ hpre
+
+/-- the loop either times out or returns a message with a witnessing decomposition of the history -/
+theorem loop_timeout_or_response (dl0 : Int) (exts : List Int) (hist : List (Int × Str)) :
+    (loop dl0 exts hist).1 = .timeout ∨
+      ∃ pre t d later dl, hist = pre ++ (t, d) :: later ∧ deadlineAfter dl0 pre = some dl ∧ t < dl ∧
+        isResponse d = true := by
+  induction hist generalizing dl0 exts with
+  | nil => left; rfl
+  | cons m rest ih =>
+    obtain ⟨t', d'⟩ := m
+    by_cases hl : t' ≥ dl0
+    · left; rw [loop_late _ _ _ _ _ hl]
+    · have hl' : t' < dl0 := by omega
+      cases hc : classify d' with
+      | response x =>
+        obtain ⟨_, hr⟩ := classify_response hc
+        right; exact ⟨[], t', d', rest, dl0, rfl, rfl, hl', hr⟩
+      | extend ms =>
+        rw [loop_extend _ _ _ _ _ _ hl' hc]
+        rcases ih (t' + ms) (exts ++ [ms]) with h | ⟨pre, t, d, later, dl, rfl, h2, h3, h4⟩
+        · left; exact h
+        · right
+          exact ⟨(t', d') :: pre, t, d, later, dl, rfl,
+            by rw [deadlineAfter_extend _ _ _ _ _ hl' hc]; exact h2, h3, h4⟩
+      | ignored =>
+        rw [loop_ignored _ _ _ _ _ hl' hc]
+        rcases ih dl0 exts with h | ⟨pre, t, d, later, dl, rfl, h2, h3, h4⟩
+        · left; exact h
+        · right
+          exact ⟨(t', d') :: pre, t, d, later, dl, rfl,
+            by rw [deadlineAfter_ignored _ _ _ _ hl' hc]; exact h2, h3, h4⟩
+
+theorem extensions_reported_gen (dl0 : Int) (exts : List Int) (pre : List (Int × Str)) (dl : Int)
+    (h : deadlineAfter dl0 pre = some dl) :
+    (loop dl0 exts pre).2 =
+      exts ++ pre.filterMap (fun m => match classify m.2 with | .extend ms => some ms | _ => none) := by
+  induction pre generalizing dl0 exts with
+  | nil => simp [loop_nil]
+  | cons m rest ih =>
+    obtain ⟨t', d'⟩ := m
+    by_cases hl : t' ≥ dl0
+    · rw [deadlineAfter_late _ _ _ _ hl] at h; cases h
+    · have hl' : t' < dl0 := by omega
+      cases hc : classify d' with
+      | response x =>
+        obtain ⟨_, hr⟩ := classify_response hc
+        rw [deadlineAfter_response _ _ _ _ hr] at h; cases h
+      | extend ms =>
+        rw [deadlineAfter_extend _ _ _ _ _ hl' hc] at h
+        rw [loop_extend _ _ _ _ _ _ hl' hc, ih _ _ h]
+        simp [hc]
+      | ignored =>
+        rw [deadlineAfter_ignored _ _ _ _ hl' hc] at h
+        rw [loop_ignored _ _ _ _ _ hl' hc, ih _ _ h]
+        simp [hc]
+
 /-- **first real response**: the first message that is not a pre-response and arrives before the
 current (possibly extended) deadline is what is returned — whatever comes later is ignored -/
 theorem first_real_response (timeout : Int) (pre : List (Int × Str)) (t : Int) (d : Str) (later : List (Int × Str))
     (dl : Int) (hpre : deadlineAfter timeout pre = some dl) (ht : t < dl) (hd : isResponse d = true) :
     (loop timeout [] (pre ++ (t, d) :: later)).1 = .response d := by
-  sorry
+  exact first_real_response_gen timeout [] pre t d later dl hpre ht hd
 
 /-- **each timeout pre-response restarts the deadline with the announced duration** and notifies
 the extension callbacks with it -/
 theorem extension_restarts (deadline : Int) (exts : List Int) (t ms : Int) (d : Str) (rest : List (Int × Str))
     (ht : t < deadline) (hc : classify d = .extend ms) :
     loop deadline exts ((t, d) :: rest) = loop (t + ms) (exts ++ [ms]) rest := by
-  sorry
+  exact loop_extend deadline exts t ms d rest ht hc
 
 /-- other pre-responses (no `timeout` key, or not a number) change nothing -/
 theorem other_pre_ignored (deadline : Int) (exts : List Int) (t : Int) (d : Str) (rest : List (Int × Str))
     (ht : t < deadline) (hc : classify d = .ignored) :
     loop deadline exts ((t, d) :: rest) = loop deadline exts rest := by
-  sorry
+  exact loop_ignored deadline exts t d rest ht hc
 
 /-- **timeout exactly when no response arrives before the current deadline** -/
 theorem timeout_iff (timeout : Int) (hist : List (Int × Str)) :
     (loop timeout [] hist).1 = .timeout ↔
       ¬ ∃ pre t d later dl, hist = pre ++ (t, d) :: later ∧ deadlineAfter timeout pre = some dl ∧ t < dl ∧ isResponse d = true := by
-  sorry
+  constructor
+  · rintro h ⟨pre, t, d, later, dl, rfl, h2, h3, h4⟩
+    rw [first_real_response_gen timeout [] pre t d later dl h2 h3 h4] at h
+    cases h
+  · intro h
+    rcases loop_timeout_or_response timeout [] hist with h' | h'
+    · exact h'
+    · exact absurd h' h
 
 /-- the callbacks are told exactly the durations of the extensions that took effect, in order -/
 theorem extensions_reported (timeout : Int) (pre : List (Int × Str)) (dl : Int) (h : deadlineAfter timeout pre = some dl) :
     (loop timeout [] pre).2 = pre.filterMap (fun m => match classify m.2 with | .extend ms => some ms | _ => none) := by
-  sorry
+  simpa using extensions_reported_gen timeout [] pre dl h
 
 /-- **marshal, subscribe and publish failures are internal errors returned without waiting**
 (no message of the history is looked at, no callback runs) -/
 theorem failures_immediate (s : Setup) (hist : List (Int × Str))
     (h : s.marshalOk = false ∨ s.subscribeOk = false ∨ s.publishOk = false) :
     (sendRequest s hist).outcome = .internalError ∧ (sendRequest s hist).extensions = [] := by
-  sorry
+  rcases h with h | h | h
+  · simp [sendRequest, h]
+  · cases hm : s.marshalOk <;> simp [sendRequest, h, hm]
+  · cases hm : s.marshalOk <;> cases hs : s.subscribeOk <;> simp [sendRequest, h, hm, hs]
 
 /-- **on every return path the inbox subscription is released** -/
 theorem unsubscribed_on_every_path (s : Setup) (hist : List (Int × Str)) :
     (sendRequest s hist).subscribed = true → (sendRequest s hist).unsubscribed = true := by
-  sorry
+  unfold sendRequest
+  cases s.marshalOk <;> cases s.subscribeOk <;> cases s.publishOk <;> simp
 
 /-- **pre-response recognition**: a message is a (final) response iff it is empty or does not
 start with a letter; `timeout:"<digits>"` is an extension by that many milliseconds -/
 theorem response_iff_not_letter (c : Nat) (r : Str) (hc : c < 256) :
     isResponse (c :: r) = !((65 ≤ c && c ≤ 90) || (97 ≤ c && c ≤ 122)) := by
-  sorry
+  rw [isResponse_cons]; exact or32_not_letter c hc
 
 theorem empty_is_response : isResponse [] = true := by
-  sorry
+  rfl
 
 theorem timeout_pre_response (digits : Str) (hne : digits ≠ []) (hd : ∀ c ∈ digits, 48 ≤ c ∧ c ≤ 57) (hlen : digits.length ≤ 18) :
     ∃ ms : Int, 0 ≤ ms ∧ classify (b!"timeout:\"" ++ digits ++ [34]) = .extend ms := by
-  sorry
+  have hd' : ∀ c ∈ digits, c ≠ 34 ∧ c ≠ 92 := by
+    intro c hc; have := hd c hc; omega
+  refine ⟨((digits.foldl (fun acc c => acc * 10 + (c - 48)) 0 : Nat) : Int), Int.natCast_nonneg _, ?_⟩
+  have hnr : isResponse (b!"timeout:\"" ++ digits ++ [34]) = false := by
+    simp [isResponse]
+  unfold classify
+  rw [hnr, tagLookup_timeout _ digits hd']
+  simp [atoi_digits digits hne hd hlen]
 
 /-! ## non-vacuity -/
 -- timeout 100; at 30 `timeout:"200"`, at 150 a response: returned, although 150 > 100
